@@ -27,6 +27,7 @@ type World struct {
 	out    []string
 	tb     testing.TB
 	nsetup int
+	tag    string // distinguishes the worlds of a two-node scenario in thread names
 }
 
 var nodeLogLevel = gen.LogLevelDisabled
@@ -302,7 +303,7 @@ func (w *World) Do(name string, fn func(p *probe) error) {
 
 // Setup runs fn as a controlled thread with the default schedule until quiescence.
 func (w *World) Setup(name string, fn func()) {
-	w.ex.Thread(name, fn)
+	w.ex.Thread(w.tag+name, fn)
 	w.ex.RunSetup()
 }
 
